@@ -88,8 +88,11 @@ def gen_case(ctx, maxl=5, maxp=5, maxN=60):
     elif rng.random() < 0.2:
         # raw ADC counts stored in a narrow integer type (16-bit, or 24-bit in int32): products of two samples do
         # not fit the record's own type
-        dt, top = rng.choice([(np.int16, 30000), (np.int32, 8_000_000), (np.int64, 8_000_000)])
-        Y = g.integers(-top, top + 1, size=(l, Ndat)).astype(dt)
+        # (signed, or unsigned as a converter delivers them: unsigned sums wrap silently too)
+        dt, top = rng.choice([(np.int16, 30000), (np.int32, 8_000_000), (np.int64, 8_000_000),
+                              (np.uint8, 255), (np.uint16, 65535), (np.uint32, 8_000_000)])
+        lo = 0 if np.dtype(dt).kind == "u" else -top
+        Y = g.integers(lo, top + 1, size=(l, Ndat)).astype(dt)
         Yref = Y[ref, :]
         ctx.count(f"record_dtype_{np.dtype(dt).name}")
     return Y, Yref, p, ref
@@ -469,6 +472,26 @@ def oracle(ctx, scale):
                 ctx.skipped += 1
                 continue
             ctx.count("class_object_reused")
+        elif not noref and l >= 2 and rng.random() < 0.6:
+            # the same algorithm object run again on the SAME setup after its run parameters were replaced through the public
+            # set_run_params (how a user explores reference choices): another reference list of the same length, sometimes
+            # another block-row count - the stored matrix must be the one of the parameters in force now
+            from pyoma2.algorithms.data.run_params import SSIRunParams
+            ref2 = rng.sample(range(l), r)
+            if ref2 == list(ref):
+                ref2 = list(reversed(ref2)) if r > 1 else [(ref2[0] + 1) % l]
+            p2 = p if rng.random() < 0.7 else max(1, p - 1)
+            kw2 = dict(br=p2, ordmax=min(2, (p2 + 1) * r, p2 * l), ref_ind=list(ref2))
+            if method != "dat":
+                kw2["method"] = method
+            try:
+                alg.set_run_params(SSIRunParams(**kw2))
+                ss.run_by_name("a")
+            except (np.linalg.LinAlgError, ValueError, IndexError):
+                ctx.skipped += 1
+                continue
+            ref, p = list(ref2), p2
+            ctx.count("class_rerun_new_params")
         H = alg.result.H
         ctx.oracle_cases += 1
         ctx.nontrivial.add(("class", method, l, tuple(ref), p))
